@@ -28,7 +28,7 @@ def B(**kw):
 LEAVES = [
     B(ret=['ok']), B(ret=['continue']), B(ret=['fail']), B(ret=['skip']), B(ret=['stop']), B(ret=['fail_subtest']),
     B(ret=['raise']), B(ret=['raise_f']), B(ret=['bad']), B(ret=['bad0']), B(ret=['hang']), B(ret=['sysexit']),
-    B(ret=['ok'], meas='pass'), B(ret=['ok'], meas='fail'), B(ret=['ok'], meas='unset'), B(ret=['ok'], meas='marg'),
+    B(ret=['ok'], meas='pass'), B(ret=['ok'], meas='fail'), B(ret=['ok'], meas='unset'), B(ret=['ok'], meas='marg'), B(ret=['ok'], meas='nocopy'),
     B(ret=['ok'], diag=['A']), B(ret=['ok'], diag=['iA']), B(ret=['ok'], diag=['FA']), B(ret=['ok'], diag=['raise']), B(ret=['ok'], diag=['raise', 'FA']),
     B(ret=['repeat', 'ok']), B(ret=['repeat', 'repeat', 'repeat']), B(ret=['repeat', 'fail']), B(ret=['repeat', 'skip']),
     B(ret=['repeat', 'ok'], opts={'repeat_limit': 1}),
@@ -159,8 +159,11 @@ def soundness(spec, settings, obs):
 def evaluate(spec, settings):
   obs = progs.run_spec(spec, settings)
   tree, _ = progs.number(spec)
-  exp = refexec.execute(tree, settings)
   bad = soundness(spec, settings, obs)
+  if 'nocopy' in json.dumps(spec):
+    # the executor itself fails in this program: only the soundness predicate applies (never PASS, ret False)
+    return bad, obs
+  exp = refexec.execute(tree, settings)
   if obs.get('outcome') != exp['outcome']:
     bad.append(('ladder', 'outcome %s, reference ladder says %s (records %r, thread errors %r)'
                 % (obs.get('outcome'), exp['outcome'], [(p[0], p[1], p[2]) for p in obs.get('phases', [])],
